@@ -50,6 +50,11 @@ Definition add_copy (fs : fsT) (d : path) (c : string) : fsT :=
 Definition dir_entries (fs : fsT) (d : string) : list path :=
   filter (fun p => String.eqb (fst p) d) (map fst (f_ino fs)).
 
+(* pydra.engine.result.RESERVED_CACHE_NAMES: the files the engine itself keeps in a job's cache directory *)
+Definition reserved_names : list string := ["_result.pklz"; "_job.pklz"; "_return_values.pklz"; "_error.pklz"].
+(* the initial clashes_to_avoid of copyfile_workflow / Job.inputs: what the directory holds, and the reserved names *)
+Definition seed (fs : fsT) (d : string) : list path := dir_entries fs d ++ map (fun n => (d, n)) reserved_names.
+
 (* ---------------------------------------------------------------- copy modes *)
 Record cmode := mkmode { m_leave : bool; m_hard : bool; m_sym : bool; m_copy : bool }.
 Inductive way := Leave | Hard | Sym | Copy.
@@ -72,6 +77,11 @@ Inductive res (A : Type) := Ok (a : A) | Err (e : err).
 Arguments Ok {A} a. Arguments Err {A} e.
 Definition err_eqb (a b : err) : bool :=
   match a, b with EExists, EExists | EUnsat, EUnsat | EFuel, EFuel | EMissing, EMissing => true | _, _ => false end.
+
+(* with path.open("wb") as fp: cp.dump(obj, fp) — an existing file is rewritten in place (through every link
+   to its inode), otherwise it is created *)
+Definition dump (fs : fsT) (p : path) (c : string) : fsT :=
+  match ino_of fs p with Some _ => write fs p c | None => add_copy fs p c end.
 
 (* ---------------------------------------------------------------- fileformats' FileSet.copy, one path *)
 Fixpoint mem (p : path) (l : list path) : bool :=
@@ -221,9 +231,9 @@ Section Pydra.
             end
         end
     end.
-  (* clashes_to_avoid = set(Path(wf_path).iterdir()): what the directory already holds *)
+  (* clashes_to_avoid = set(Path(wf_path).iterdir()) | {wf_path / n for n in RESERVED_CACHE_NAMES} *)
   Definition copyfile_workflow (dest : string) (fields : list value) (fs : fsT) :=
-    copyfile_fields dest fields (dir_entries fs dest) fs.
+    copyfile_fields dest fields (seed fs dest) fs.
 
   (* Job.inputs: for each field whose type can contain a FileSet and whose value is truthy,
      copy_nested_files(value, cache_dir, mode=fld.copy_mode, supported_modes=any,
@@ -250,5 +260,5 @@ Section Pydra.
           end
     end.
   Definition job_inputs (dest : string) (fields : list field) (fs : fsT) :=
-    job_fields dest fields (dir_entries fs dest) fs.
+    job_fields dest fields (seed fs dest) fs.
 End Pydra.
